@@ -19,6 +19,7 @@ import (
 	"sort"
 	"strconv"
 	"strings"
+	"syscall"
 	"testing"
 	"time"
 
@@ -74,6 +75,11 @@ func c17MakeTree(t testing.TB, root string) *c17Tree {
 		// does not match its own text, and a name with a literal star, which the
 		// escaped pattern does match
 		"safe/[ab].txt", "safe/\\*.txt", "safe/[^a].txt", "safe/*.txt",
+		// (round 8) names that literally contain percent sequences: regular
+		// files inside safe/ whose percent-DECODED names would be other files
+		// (other.txt, secret/s.txt, safe/a.txt): a location is used as spelled
+		"safe/..%2Fother.txt", "safe/..%2fsecret%2Fs.txt", "safe/%2E%2E%2Fother.txt", "safe/..%252Fother.txt",
+		"safe/%61.txt", "safe/b%00.lst", "safe/..%5Cother.txt",
 	}
 	tr.rel = rel
 	for i, r := range rel {
@@ -217,10 +223,10 @@ func c17New(t testing.TB, dataDir string, pats []string, block, allow []c17Plant
 		// non-zero, so that the periodic path does something; which entries
 		// are due is set by the harness before each periodic step
 		FiltersUpdateIntervalHours: 24,
-		Filters:          mk(block, false),
-		WhitelistFilters: mk(allow, true),
-		HTTPClient:       &http.Client{Timeout: 5 * time.Second, Transport: c17RT{real: &http.Transport{}}},
-		ConfigModified:   func() {},
+		Filters:                    mk(block, false),
+		WhitelistFilters:           mk(allow, true),
+		HTTPClient:                 &http.Client{Timeout: 5 * time.Second, Transport: c17RT{real: &http.Transport{}}},
+		ConfigModified:             func() {},
 	}
 	d, err = New(conf, nil)
 	if err != nil {
@@ -450,6 +456,49 @@ func c17Do(d *DNSFilter, op c17Op) (code, updated int) {
 	}
 }
 
+// c17WatchFifos: named pipes that lie outside every configured pattern and are
+// locations of lists of the history being run.  Nobody writes to them: whoever
+// opens one for reading blocks in open(2).  (Round 8: "opens a local file only
+// if a pattern matches" as an observation of opens, not of content.)
+var c17WatchFifos []string
+
+// c17FifoDone: set to skip the pipe cases (never, at present).
+var c17FifoDone bool
+
+// c17DoWatched runs c17Do while watching the pipes.  The verdict does not
+// depend on the clock: opening a FIFO for writing without blocking succeeds
+// if and only if some reader has it open or is blocked opening it (ENXIO
+// otherwise); that success also releases the reader.
+func c17DoWatched(d *DNSFilter, op c17Op) (code, updated int, opened string) {
+	if len(c17WatchFifos) == 0 {
+		code, updated = c17Do(d, op)
+		return code, updated, ""
+	}
+	done := make(chan struct{})
+	go func() {
+		defer close(done)
+		code, updated = c17Do(d, op)
+	}()
+	tick := time.NewTicker(20 * time.Millisecond)
+	defer tick.Stop()
+	for {
+		select {
+		case <-done:
+			return code, updated, opened
+		case <-tick.C:
+			for _, p := range c17WatchFifos {
+				w, err := os.OpenFile(p, os.O_WRONLY|syscall.O_NONBLOCK, 0)
+				if err == nil {
+					if opened == "" {
+						opened = p
+					}
+					_ = w.Close()
+				}
+			}
+		}
+	}
+}
+
 // c17SafeByMatch is the property's predicate, evaluated with the standard
 // library only: p is absolute, clean, and some pattern matches it.
 func c17SafeByMatch(pats []string, p string) bool {
@@ -591,9 +640,9 @@ func c17PatternSets(R string) [][]string {
 		{R + "/safe/", R + "/safe"},
 		{R + "/safe/**", R + "/safe/*/*/*"},
 		{R + "/*/?.txt", R + "/safe/?.txt"},
-		{R + "/safe/*["},             // malformed, but not noticed by the configuration check
+		{R + "/safe/*["},                     // malformed, but not noticed by the configuration check
 		{R + "/safe/a.txt", R + "/safe/[b-"}, // same, second pattern
-		{R + "/safe/[]"},             // malformed and noticed: New fails
+		{R + "/safe/[]"},                     // malformed and noticed: New fails
 		{R + "/s*e/*"},
 		{R + "/safe/?????", R + "/safe/\xc3\xbc.txt"},
 		// letter case: lower-case class and extension, upper-case literals
@@ -634,21 +683,83 @@ func c17CaseVariants(R, rel string) []string {
 		return c
 	}, rel)
 	vs := []string{
-		R + "/" + strings.ToUpper(dir) + base,                 // directory names
-		R + "/" + dir + stem + strings.ToUpper(ext),           // extension
-		R + "/" + dir + strings.ToUpper(stem) + ext,           // file name
-		R + "/" + dir + first(base),                           // first letter
-		R + "/" + first(rel),                                  // first letter of the first element
-		R + "/" + strings.ToUpper(rel),                        // everything
-		R + "/" + swap,                                        // every letter swapped
+		R + "/" + strings.ToUpper(dir) + base,                                 // directory names
+		R + "/" + dir + stem + strings.ToUpper(ext),                           // extension
+		R + "/" + dir + strings.ToUpper(stem) + ext,                           // file name
+		R + "/" + dir + first(base),                                           // first letter
+		R + "/" + first(rel),                                                  // first letter of the first element
+		R + "/" + strings.ToUpper(rel),                                        // everything
+		R + "/" + swap,                                                        // every letter swapped
 		filepath.Dir(R) + "/" + strings.ToUpper(filepath.Base(R)) + "/" + rel, // the root's own name
-		R + "/" + strings.ToLower(rel),                        // all lower (for the upper-case files)
+		R + "/" + strings.ToLower(rel),                                        // all lower (for the upper-case files)
 	}
 	return vs
 }
 
 // c17Loc builds a hostile or benign location.
+// c17Percent puts percent sequences into a location, at random positions: an
+// encoded separator, dot, letter, backslash, NUL, a doubly encoded separator,
+// or a malformed escape.  (Round 8: a local location is used as spelled.)
+func c17Percent(r *vfRand, loc string) string {
+	idx := func(set string) []int {
+		var is []int
+		for i := 0; i < len(loc); i++ {
+			if strings.IndexByte(set, loc[i]) >= 0 {
+				is = append(is, i)
+			}
+		}
+		return is
+	}
+	sub := func(is []int, encs ...string) string {
+		if len(is) == 0 {
+			return loc + vfPick(r, encs)
+		}
+		i := vfPick(r, is)
+		return loc[:i] + vfPick(r, encs) + loc[i+1:]
+	}
+	switch r.Intn(8) {
+	case 0, 1:
+		return sub(idx("/"), "%2F", "%2f", "%252F", "%5C", "%5c", "%2F%2F")
+	case 2:
+		return sub(idx("."), "%2E", "%2e", "%252E")
+	case 3:
+		// every dot of one dot-dot, and the separator behind it
+		if i := strings.Index(loc, "/../"); i >= 0 {
+			return loc[:i] + vfPick(r, []string{"/%2E%2E/", "/..%2F", "/%2e%2e%2f", "/.%2E/", "/..%252F", "/..%5C", "/%2E%2E%2F"}) + loc[i+4:]
+		}
+		return sub(idx("/"), "/..%2F", "/%2E%2E%2F")
+	case 4:
+		is := idx("abcdefghijklmnopqrstuvwxyz")
+		if len(is) == 0 {
+			return loc + "%61"
+		}
+		i := vfPick(r, is)
+		return loc[:i] + fmt.Sprintf("%%%02X", loc[i]) + loc[i+1:]
+	case 5:
+		i := r.Intn(len(loc) + 1)
+		return loc[:i] + vfPick(r, []string{"%00", "%", "%zz", "%2", "%20", "%0A"}) + loc[i:]
+	default:
+		// a dot-dot step made of encoded pieces, after a random separator
+		is := idx("/")
+		if len(is) == 0 {
+			return "..%2F" + loc
+		}
+		i := vfPick(r, is)
+		return loc[:i+1] + vfPick(r, []string{"..%2F", "%2E%2E%2F", "..%2f", "x%2F..%2F..%2F", "..%252F", "..%5C"}) + loc[i+1:]
+	}
+}
+
+// c17Loc: a location; one in seven gets percent sequences on top of its
+// spelling.
 func c17Loc(r *vfRand, tr *c17Tree) (loc, class string) {
+	loc, class = c17LocBase(r, tr)
+	if r.Chance(1, 7) && loc != "" {
+		return c17Percent(r, loc), "loc-percent"
+	}
+	return loc, class
+}
+
+func c17LocBase(r *vfRand, tr *c17Tree) (loc, class string) {
 	R := tr.root
 	target := vfPick(r, tr.order)
 	relT := strings.TrimPrefix(target, R+"/")
@@ -847,7 +958,11 @@ func c17HistoryX(t *testing.T, out *vfOut, tr *c17Tree, dataDir string, extra []
 			classes = append(classes, "add-raw-json")
 		}
 		locs = append(locs, op.Loc)
-		code, upd := c17Do(d, op)
+		code, upd, opened := c17DoWatched(d, op)
+		if opened != "" {
+			fail(fmt.Sprintf("%s: the named pipe %q, which no safe pattern matches, was opened for reading (a reader was waiting on it)", op.Kind, opened))
+			classes = append(classes, "fifo-opened")
+		}
 		b, a := snapshot()
 		obs = append(obs, c17Obs{Code: code, Updated: upd, Block: b, Allow: a})
 		classes = append(classes, fmt.Sprintf("%s-code-%d", op.Kind, code))
@@ -1429,6 +1544,51 @@ func TestVerifC17(t *testing.T) {
 			[]c17Plant{{URL: own, Enabled: true}, {URL: "http://lists.example/a.txt", Enabled: true}}, []c17Plant{{URL: R + "/g/a", Enabled: true}},
 			[]c17Op{{Kind: "refresh"}, {Kind: "add", Loc: R + "/g/../g/" + name}, {Kind: "set", Old: "http://lists.example/a.txt", Loc: own + "/", Enabled: true}, {Kind: "refresh", White: true}, {Kind: "periodic", Due: []string{own, own + "/", R + "/g/a"}}},
 			[]string{"pre-glob-name", "glob-space"})
+	}
+
+	// (round 8) Percent signs in local locations.  A location is used as
+	// spelled: what is checked against the patterns and what is opened is the
+	// same string, clean(loc); no decoding in between.  The tree has files
+	// whose names literally contain the sequences, inside safe/: under
+	// safe/* they are read (their own content), never the file their decoded
+	// name would be; spellings without such a file are refused.
+	pctLocs := []string{
+		R + "/safe/..%2Fother.txt", R + "/safe/..%2fsecret%2Fs.txt", R + "/safe/%2E%2E%2Fother.txt", R + "/safe/..%252Fother.txt",
+		R + "/safe/%61.txt", R + "/safe/b%00.lst", R + "/safe/..%5Cother.txt",
+		// no file of that literal name
+		R + "/safe/..%2Fsecret%2Fs.txt", R + "/safe/..%2Fsecret/s.txt", R + "/safe/%2E%2E/other.txt", R + "/safe/%2e%2e%2fother.txt",
+		R + "/safe/sub%2F..%2F..%2Fother.txt", R + "/safe%2F..%2Fother.txt", R + "%2Fsafe%2Fa.txt", R + "/safe/a%2Etxt", R + "/safe/%61%2Etxt",
+		R + "/safe/a.txt%00", R + "/safe/a.txt%", R + "/safe/%zz/../a.txt", R + "/safe/..%2F..%2F..%2F..%2F..%2F..%2Fetc%2Fpasswd",
+		R + "/safe/./..%2Fother.txt/", R + "/safe/x/../..%2Fother.txt", "file://" + R + "/safe/..%2Fother.txt", R + "/secret/..%2Fsafe%2Fa.txt",
+	}
+	for _, pats := range [][]string{safe, {R + "/safe/*.txt", R + "/safe/*.lst"}, {R + "/safe/..%2Fother.txt"}, {R + "/*/*"}, nil} {
+		for _, l := range pctLocs {
+			c17History(t, out, tr, dataDir, pats, nil, nil, []c17Op{{Kind: "add", Loc: l}, {Kind: "refresh"}}, []string{"pre-add-percent", "loc-percent"})
+			c17History(t, out, tr, dataDir, pats, []c17Plant{{URL: R + "/safe/a.txt", Enabled: true}, {URL: l, Enabled: true}}, []c17Plant{{URL: l + "/.", Enabled: true, Loaded: 77}},
+				[]c17Op{{Kind: "refresh"}, {Kind: "refresh", White: true}, {Kind: "set", Old: R + "/safe/a.txt", Loc: l + "/", Enabled: true}, {Kind: "periodic", Due: []string{l, l + "/", l + "/."}}},
+				[]string{"pre-refresh-percent", "pre-set-percent", "pre-periodic-percent", "loc-percent"})
+		}
+	}
+
+	// (round 8) Opens, not content: a named pipe outside every pattern is the
+	// location of enabled lists of the configuration.  Refresh and the periodic
+	// path must refuse it without opening it (a reader that opens first blocks
+	// in open(2); c17DoWatched sees the waiting reader and releases it).
+	if !c17FifoDone {
+		for i, pats := range [][]string{safe, nil, {R + "/safe/*", R + "/safe2/*.txt", R + "/secret/*.txt"}} {
+			pipe := R + "/secret/pipe"
+			_ = os.Remove(pipe)
+			if err := syscall.Mkfifo(pipe, 0o644); err != nil {
+				t.Fatalf("mkfifo: %v", err)
+			}
+			c17WatchFifos = []string{pipe}
+			spelled := R + "/safe/../secret/./pipe"
+			c17History(t, out, tr, dataDir, pats, []c17Plant{{URL: pipe, Enabled: true}, {URL: R + "/safe/a.txt", Enabled: true}}, []c17Plant{{URL: spelled, Enabled: true, Loaded: 77}},
+				[]c17Op{{Kind: "refresh"}, {Kind: "refresh", White: true}, {Kind: "periodic", Due: []string{pipe, spelled}}},
+				[]string{"pre-fifo-outside-patterns", fmt.Sprintf("pre-fifo-%d", i)})
+			c17WatchFifos = nil
+			_ = os.Remove(pipe)
+		}
 	}
 
 	rnd := vfNewRand(out.Seed)
